@@ -99,6 +99,17 @@ def _split_args(toks, lo, hi):
     return out
 
 
+def _join_tokens(ts):
+    out = ''
+    for t in ts:
+        if out and not (t in (',', ';', ')', '.', '::', '(') or out.endswith(('(', '.', '::', '&', '*')) and t != '{'):
+            out += ' '
+        elif out and t == '(' and not out[-1].isalnum() and out[-1] != '_':
+            out += ' ' if out[-1] not in '(.:' else ''
+        out += t
+    return out
+
+
 class Extractor:
     def __init__(self, src, cfg, opts=None):
         self.src = src
@@ -108,6 +119,7 @@ class Extractor:
         self.out = []          # list of (text, srcpos or None, layout hint pos or None, inline flag)
         self.inline = False
         self._no_item_at = -1
+        self.ifunc_body = None
         self.x2 = self.opts.get('x2', True)
         self.fired = Counter()
         self.keep_derives = tuple(self.opts.get('keep_derives', KEEP_DERIVES_DEFAULT))
@@ -282,6 +294,12 @@ class Extractor:
                     if self.will_drop(nm, ctx):
                         self.fired['X1'] += 1
                         i = self.thing_end(i, hi)
+                        continue
+                    if nm == 'macro unsafe_ifunc':
+                        e_ = self.thing_end(i, hi)
+                        self.ifunc_body = (i, e_)
+                        self.fired['X6'] += 1
+                        i = e_
                         continue
                     if nm.startswith('mod ') and toks[self.thing_end(i, hi) - 1].t == ';':
                         # out-of-line module declaration: the generator re-creates the module tree
@@ -600,6 +618,10 @@ class Extractor:
             self.fired['X5'] += 1
             self.emit_syn('true' if eval_pred(pred, self.cfg) else 'false')
             return end
+        if name == 'unsafe_ifunc' and self.ifunc_body is not None:
+            self.expand_ifunc(o, c, toks[i].s)
+            self.fired['X6'] += 1
+            return end + (1 if has_semi else 0)
         if name in ASSERT_MACROS:
             is_debug = name.startswith('debug_')
             args = _split_args(toks, o + 1, c)
@@ -641,6 +663,70 @@ class Extractor:
                     self.emit_syn('; assert(l %s r); }' % op)
             return end + (1 if has_semi else 0)
         return None
+
+    def expand_ifunc(self, o, c, hint):
+        """X6: instantiate the three helper fns of `unsafe_ifunc!` by textual substitution of the macro arguments; the
+        detect / AtomicPtr / transmute part is replaced by a match on the trusted `ifunc_choice()` (assumption A2)"""
+        toks = self.toks
+        args = _split_args(toks, o + 1, c)
+        txt = [' '.join(t.t for t in toks[a:b]) for a, b in args]
+        if len(txt) < 7:
+            raise ExtractError('unsafe_ifunc!: unexpected argument list')
+        memchrty, memchrfind, fnty, retty, hs, he = txt[:6]
+        needles = txt[6:]
+        lo, hi = self.ifunc_body
+        body = toks[lo:hi]
+
+        def subst(seq):
+            out = []
+            k = 0
+            while k < len(seq):
+                t = seq[k].t
+                if t == '$' and k + 1 < len(seq) and seq[k + 1].t == '(':
+                    # $($needle: u8),+   or   $($needle),+
+                    cl = match_close(seq, k + 1)
+                    inner = [x.t for x in seq[k + 2:cl]]
+                    if inner == ['$', 'needle', ':', 'u8']:
+                        out.append(', '.join('%s: u8' % n for n in needles))
+                    elif inner == ['$', 'needle']:
+                        out.append(', '.join(needles))
+                    else:
+                        raise ExtractError('unsafe_ifunc!: unknown repetition %s' % inner)
+                    k = cl + 1
+                    if k < len(seq) and seq[k].t == ',' and k + 1 < len(seq) and seq[k + 1].t == '+':
+                        k += 2
+                    continue
+                if t == '$' and k + 1 < len(seq):
+                    v = {'memchrty': memchrty, 'memchrfind': memchrfind, 'fnty': fnty, 'retty': retty,
+                         'hay_start': hs, 'hay_end': he}.get(seq[k + 1].t)
+                    if v is None:
+                        raise ExtractError('unsafe_ifunc!: unknown metavariable $%s' % seq[k + 1].t)
+                    out.append(v)
+                    k += 2
+                    continue
+                out.append(t)
+                k += 1
+            return out
+
+        pieces = ['{']
+        for helper in ('find_avx2', 'find_sse2', 'find_fallback'):
+            pos = None
+            for k in range(len(body) - 1):
+                if body[k].t == 'fn' and body[k + 1].t == helper:
+                    pos = k
+                    break
+            if pos is None:
+                raise ExtractError('unsafe_ifunc!: helper %s not found in macro' % helper)
+            st = pos - 1 if body[pos - 1].t == 'unsafe' else pos
+            k = pos
+            while body[k].t != '{':
+                k += 1
+            en = match_close(body, k)
+            pieces.append('\n        ' + _join_tokens(subst(body[st:en + 1])))
+        call_args = ', '.join(needles + [hs, he])
+        pieces.append('\n        match crate::vbase::ifunc_choice() { 0 => unsafe { find_avx2(%s) }, 1 => unsafe { find_sse2(%s) }, '
+                      '_ => unsafe { find_fallback(%s) } }\n    }' % (call_args, call_args, call_args))
+        self.emit_syn(''.join(pieces), hint)
 
     # -------------------------------------------------------------- rendering
     def render(self):
